@@ -1,5 +1,5 @@
 """C14 — ProcessingTimeWindowManager::process (src/operator/window/descr/processing_time.rs), Verus, any number of open windows."""
-import os, sys
+import os, re, sys
 sys.path.insert(0, os.path.dirname(os.path.dirname(__file__)))
 import std_specs as S
 
@@ -187,8 +187,8 @@ def build(x):
     pr = x.method(F, 'ProcessingTimeWindowManager', 'process', trait='WindowManager')
     pr.replace_exact('V-TRAIT', 'Self::Output', 'Vec<WindowResult<A::Out>>', detail='associated type Output substituted')
     pr.replace_exact('V-SUBST', 'Instant::now()', 'clock_now()', detail='R-CLOCK: the clock is any value >= clock_floor()')
-    pr.annotate_closure('self.ws.back().map(', 'b: &Slot<A>', 'more: bool', 'more == (b.start < now)', nth=1, obl='processing_time.allocates_until_slot_start_reaches_now')
-    pr.annotate_closure('self.ws.back().map(', 'b: &Slot<A>', 'ns: u64', 'ns == b.start + self.slide', nth=2, requires='b.start + self.slide <= u64::MAX', obl='processing_time.next_start_is_previous_plus_slide')
+    pr.annotate_closure(re.compile(r'while self\.ws\.back\(\)\.map\('), 'b: &Slot<A>', 'more: bool', 'more == (b.start < now)', obl='processing_time.allocates_until_slot_start_reaches_now')
+    pr.annotate_closure(re.compile(r'let (?:mut )?\w+ = self\.ws\.back\(\)\.map\('), 'b: &Slot<A>', 'ns: u64', 'ns == b.start + self.slide', requires='b.start + self.slide <= u64::MAX', obl='processing_time.next_start_is_previous_plus_slide')
     pr.iter_skip_take_foreach()
     pr.iter_drain_filter_map_collect(1)
     pr.iter_partition_point()
